@@ -114,7 +114,8 @@ impl Assignment {
 
             // `modify` writes a variable captured from an enclosing function: that is what the name must denote
             // here, not a variable of this function (whichever of its blocks declared it)
-            if !is_captured {
+            // (an earlier `modify` of the same function registers the name as the captured variable it is)
+            if !is_captured && !ident.is_instance_callback_variable().unwrap_or(false) {
                 bail!("`{name}` is a variable of this function, not one captured from an enclosing function")
             }
 
